@@ -8,3 +8,7 @@ import ExaModel.Props.C09
 #print axioms Exa.Props.C09.c09_attrs_present
 #print axioms Exa.Props.C09.c09_no_room
 #print axioms Exa.Props.C09.c09
+#print axioms Exa.Props.C09.msg_len_is_encoding_length
+#print axioms Exa.Props.C09.c09_parses_alone
+#print axioms Exa.Props.C09.c09_decoded_union
+#print axioms Exa.Props.C09.realRho_realises
